@@ -115,7 +115,12 @@ impl Prop for C13 {
                     match guarded(|| dynp::lr_parse(inp, RunOpts::default())) {
                         Ok(Ok(t)) => vec![t],
                         Ok(Err(_)) => vec![],
-                        Err(p) => match parse_panic("parse|LR", &p, st) { Some(o) => return o, None => continue },
+                        Err(p) => {
+                            if std::env::var_os("VERIF_DEBUG_HANG").is_some() && is_step_panic(&p) {
+                                eprintln!("HANG-LR grammar:\n{text}\ninput {inp:?}");
+                            }
+                            match parse_panic("parse|LR", &p, st) { Some(o) => return o, None => continue }
+                        }
                     }
                 } else {
                     match guarded(|| dynp::glr_parse(inp, RunOpts::default(), 50, false)) {
